@@ -68,8 +68,19 @@ def run(chk):
     for call, b in adds:
         p = norm.raw(b["P"])
         K.require_lits(chk, "C06.reacquire", call, [(f"{p}.is_connected()", True, "transport still open")], "a pooled connection is reused only if still connected")
-        K.require_lits(chk, "C06.reacquire", call, [([("$A - $B > self._keepalive_timeout", False), ("$A - $B <= self._keepalive_timeout", True)], True, "idle time within keep-alive")],
-                       "a pooled connection is reused only within the keep-alive timeout")
+        # the clause that bounds the idle time: `t1 - t0 <= timeout`, alone or together with `timeout is None` (no expiry configured)
+        within = [("$A - $B > self._keepalive_timeout", False), ("$A - $B <= self._keepalive_timeout", True)]
+        bound = None
+        for cl in PC.pc(call):
+            kinds = ["within" if any(l.pos == pos and M.match_text(pat, l.text) is not None for pat, pos in within)
+                     else "unset" if l.pos and l.text == "self._keepalive_timeout is None" else "other" for l in cl]
+            if "within" in kinds and "other" not in kinds:
+                bound = cl
+        if bound is not None:
+            chk.ok("C06.reacquire", call, "a pooled connection is reused only within the keep-alive timeout: " + norm.fmt_cnf([bound]))
+        else:
+            chk.violation("C06.reacquire", call, K.short(call), "t1 - t0 <= self._keepalive_timeout", "a pooled connection is reused only within the keep-alive timeout: the idle time is not compared with the timeout on every path to this statement",
+                          path_condition=norm.fmt_cnf(PC.pc(call)))
         # the reuse predicate holds again at the moment of reuse: either _get() re-evaluates it, or nothing can change it unnoticed while the
         # connection idles - the connector marks the pooled protocol idle and the protocol closes itself when input leaves it dirty
         # (then `is_connected()` above is false)
